@@ -1,6 +1,7 @@
 import PyTrie.Model.Bin
 import PyTrie.Model.BinRaw
 import PyTrie.Model.BranchRaw
+import PyTrie.Model.BinRawT
 import PyTrie.Model.Keccak
 /-! Line-protocol front end for the binary trie and the branch helpers (`bin.*`). All tries of a
     session share one database, as BinaryTrie objects sharing one dict do. -/
@@ -147,12 +148,13 @@ def step (st : St) (cmd : String) (args : List String) : St × String :=
   | "rrop", [k, v, sub] =>
     match ofHex k, ofHex v with
     | some k, some v =>
-      match BinRaw.rawSet keccak (keccak []) (8 * k.length + 4) { db := st.rr.2 } st.rr.1 (toBits k) v (sub == "1") with
-      | .ok (h, st') => ({ st with rr := (h, st'.db) }, s!"root={toHex h}")
-      | .error .override => (st, "exn NodeOverrideError")
-      | .error (.keyError _) => (st, "exn KeyError")
-      | .error .invalid => (st, "exn Invalid")
-      | .error .fuel => (st, "exn Fuel")
+      -- `rawSetT`: the transcription that also returns the database when an exception leaves the call
+      match BinRawT.rawSetT keccak (keccak []) (8 * k.length + 4) { db := st.rr.2 } st.rr.1 (toBits k) v (sub == "1") with
+      | (st', .ok h) => ({ st with rr := (h, st'.db) }, s!"root={toHex h}")
+      | (st', .error .override) => ({ st with rr := (st.rr.1, st'.db) }, "exn NodeOverrideError")
+      | (st', .error (.keyError _)) => ({ st with rr := (st.rr.1, st'.db) }, "exn KeyError")
+      | (st', .error .invalid) => ({ st with rr := (st.rr.1, st'.db) }, "exn Invalid")
+      | (_, .error .fuel) => (st, "exn Fuel")
     | _, _ => bad
   | "rrdb", [] =>
     let ded := st.rr.2.foldl (fun acc e => if acc.any (fun x => x.1 == e.1) then acc else acc ++ [e]) []
